@@ -186,3 +186,29 @@ def noise_pairs(part=None):
                 y = {"rep": "week", "f": list(c.week_from_dn(dn0 + d)), "t": ["hmf", rem // 60, rem % 60, fr], "tz": [oh, om]}
                 out.append((x, y))
     return out
+
+
+def decimal_vs_whole_pairs(part=None):
+    """(x, y) at one instant: x a decimal-hour (decimal-minute) form with two decimals, y the same time spelled in whole
+    seconds (every hundredth of an hour is 36 s; every twentieth of a minute is 3 s), plus y one second earlier/later."""
+    c = M.cal("greg")
+    dn0 = c.dn_from_cal(2000, 3, 1)
+    f = list(c.cal_from_dn(dn0))
+    out = []
+    for hi, h in enumerate((0, 7, 23)):
+        if part is not None and part != hi:
+            continue
+        for cc in range(1, 100):
+            secs = cc * 36
+            x = {"rep": "cal", "f": f, "t": ["hf", h, cc / 100.0], "tz": [0, 0]}
+            for dlt in (0, -60, 1, -3600):
+                t2 = h * 3600 + secs + dlt
+                if 0 <= t2 < 86400:
+                    out.append((x, {"rep": "cal", "f": f, "t": ["hms", t2 // 3600, t2 % 3600 // 60, t2 % 60], "tz": [0, 0]}, dlt))
+        for cc in range(5, 100, 5):
+            secs = cc * 6 // 10
+            x = {"rep": "cal", "f": f, "t": ["hmf", h, 7, cc / 100.0], "tz": [0, 0]}
+            for dlt in (0, -1):
+                t2 = h * 3600 + 7 * 60 + secs + dlt
+                out.append((x, {"rep": "cal", "f": f, "t": ["hms", t2 // 3600, t2 % 3600 // 60, t2 % 60], "tz": [0, 0]}, dlt))
+    return out
